@@ -1,7 +1,7 @@
 use crate::parseresult::PResult;
 use nom::branch::alt;
 use nom::bytes::complete::{escaped, is_a, is_not, tag};
-use nom::character::complete::{alpha1, char, digit1, none_of, one_of};
+use nom::character::complete::{alpha1, char, digit1, one_of};
 use nom::combinator::{map, map_res, not, opt, recognize, value};
 use nom::error::context;
 use nom::multi::{fold_many0, many0, separated_list0};
@@ -83,7 +83,7 @@ fn expr_in_brackets(input: &[u8]) -> PResult<&str> {
                 value((), expr_in_parens),
                 value((), quoted_string),
                 value((), rust_comment),
-                value((), terminated(tag("/"), none_of("*"))),
+                value((), terminated(tag("/"), not(tag("*")))),
             ))),
             tag("]"),
         )),
@@ -103,7 +103,7 @@ pub fn expr_in_braces(input: &[u8]) -> PResult<&str> {
                 value((), expr_in_parens),
                 value((), quoted_string),
                 value((), rust_comment),
-                value((), terminated(tag("/"), none_of("*"))),
+                value((), terminated(tag("/"), not(tag("*")))),
             ))),
             tag("}"),
         )),
@@ -121,7 +121,7 @@ pub fn expr_inside_parens(input: &[u8]) -> PResult<&str> {
             value((), expr_in_parens),
             value((), quoted_string),
             value((), rust_comment),
-            value((), terminated(tag("/"), none_of("*"))),
+            value((), terminated(tag("/"), not(tag("*")))),
         )))),
         input_to_str,
     )
